@@ -39,11 +39,22 @@ def case_strategy(draw, tier):
     if form == "tree":
         # one measurement registered under two column names (the very same array object)
         case["aliased"] = draw(st.integers(0, 2)) == 0
+        # a further per-node measurement (fractions, values beyond 2^31) stored under a name the extended SWC format
+        # also knows, or under any other name
+        if not case["aliased"] and draw(st.booleans()):
+            case["named_extra"] = draw(st.sampled_from(gen_tree.ESWC_NAMES + ["score", "depth_um"]))
+    if form == "file":
+        case["reset_index"] = draw(st.sampled_from([True, True, False]))
     if form in ("table", "table_"):
         # a further extra column of 64-bit integers beyond 2^53 (time stamps, database keys): carried exactly
         case["big_ints"] = draw(st.integers(0, 2)) == 0
     if form != "tree":
-        if draw(st.booleans()):
+        k = draw(st.integers(0, 5))
+        if k == 0:
+            # database keys / hashes as ids: 64-bit values beyond 2^31 and 2^32
+            case["ids"] = draw(st.lists(st.one_of(st.integers(2 ** 31 - 3, 2 ** 31 + 40), st.integers(2 ** 32 - 3, 2 ** 32 + 40),
+                                                  st.integers(0, 2 ** 62)), min_size=n, max_size=n, unique=True))
+        elif k <= 2:
             case["ids"] = draw(st.lists(st.integers(0, 10 ** 5), min_size=n, max_size=n, unique=True))
         else:
             base = draw(st.sampled_from([0, 1, 5]))
@@ -123,7 +134,13 @@ def run_case(case, ctx):
         already = all(p < i for i, p in enumerate(t["parents"]))
         ctx.cls("already-sorted" if already else "unsorted")
         ctx.nontrivial(n >= 4 and not already and has_furc)
-        tree = gen_tree.build_tree(t, aliased=bool(case.get("aliased")))
+        more = None
+        if case.get("named_extra"):
+            # w holds multiples of 1/4: the further column holds fractions and, for every third node, a value beyond 2^31
+            named = [float(np.float32(v + 0.375 + (2.0 ** 33 if i % 3 == 0 else 0.0))) for i, v in enumerate(t["w"])]
+            more = {case["named_extra"]: np.array(named, dtype=np.float32)}
+            ctx.cls("extra-column-under-an-eswc-name" if case["named_extra"] in gen_tree.ESWC_NAMES else "extra-column-under-another-name")
+        tree = gen_tree.build_tree(t, aliased=bool(case.get("aliased")), more=more)
         if case.get("aliased"):
             ctx.cls("one-array-under-two-column-names")
         if "reroot_first" in case:
@@ -142,6 +159,11 @@ def run_case(case, ctx):
         ctx.check(set(out.keys()) == set(before), "tree/columns-kept", lambda: f"{list(out.keys())}")
         got = _tree_cols(out)
         _check_relabelling(ctx, t, got, "tree")
+        if more:
+            name = case["named_extra"]
+            of_tag = {tg: named[i] for i, tg in enumerate(t["tag"])}
+            ctx.check([float(v) for v in got[name]] == [of_tag[int(tg)] for tg in got["tag"]], "tree/column-carried",
+                      lambda: f"extra column {name!r}: {got[name][:6]} vs {[of_tag[int(tg)] for tg in got['tag']][:6]}")
         ctx.check(bool(is_sorted((out.id(), out.pid()))), "tree/is_sorted-agrees", "is_sorted says False")
         again = sort_tree(out)
         _check_relabelling(ctx, t, _tree_cols(again), "tree/resort")
@@ -175,6 +197,8 @@ def run_case(case, ctx):
             big_of_node = [2 ** 53 + 1 + 3 * node + (node % 5) * 2 ** 40 for node in range(n)]
             cols["big"] = np.array([big_of_node[node] for node in rows], dtype=np.int64)
             ctx.cls("extra-column-of-64-bit-integers")
+        if max(ids) >= 2 ** 31:
+            ctx.cls("ids-beyond-2^31")
         df = pd.DataFrame(cols)
         snapshot = df.copy(deep=True)
         if form == "table":
@@ -214,7 +238,11 @@ def run_case(case, ctx):
     text = "\n".join(lines) + "\n"
     fix = case.get("fix_roots", False)
     ctx.cls(f"file:fix_roots={fix}")
-    df, _ = read_swc(io.StringIO(text), extra_cols=["tag", "w"], sort_nodes=True, fix_roots=fix)
+    reset = case.get("reset_index", True)
+    ctx.cls(f"file:reset_index={reset}")
+    if max(ids) >= 2 ** 31:
+        ctx.cls("ids-beyond-2^31")
+    df, _ = read_swc(io.StringIO(text), extra_cols=["tag", "w"], sort_nodes=True, fix_roots=fix, reset_index=reset)
     got = {c: df[c].tolist() for c in df.columns}
     ctx.check(set(got) >= {"id", "pid", "tag", "w"}, "file/columns-kept", lambda: f"{list(got)}")
     # radii may be general float32 values: the text carries their repr, compare as float32
@@ -228,5 +256,6 @@ SUBCHECKS = [
                   "no-furcation-fixed-point": 10, "tree-object-with-root-not-at-0": 60,
                   "resort-with:sort_nodes_": 60, "file:fix_roots=somas": 30, "file:fix_roots=nearest": 30,
                   "one-array-under-two-column-names": 80, "rows:parents-first-ids-not-growing": 200,
-                  "rows:dense-ids-root-min-first": 100, "extra-column-of-64-bit-integers": 100}),
+                  "rows:dense-ids-root-min-first": 100, "extra-column-of-64-bit-integers": 100,
+                  "ids-beyond-2^31": 100, "file:reset_index=False": 60, "extra-column-under-an-eswc-name": 60}),
 ]
